@@ -1,5 +1,5 @@
 CONSTANT Closed = TRUE
 CONSTANT Weak = {}
 SPECIFICATION Spec
-INVARIANTS TypeOK C04_Once C04_Prefix C04_AtReturn C04_Tasks C05_NoEarly C06_Bound C08_Order C09_FailStops C09_NoSilent C02_NoReexec C16_Closure C17_NoFile C17_NoFifoLeft C17_Rendezvous
+INVARIANTS TypeOK C04_Once C04_Prefix C04_AtReturn C04_Tasks C05_NoEarly C06_Bound C08_Order C09_FailStops C09_NoSilent C02_NoReexec C16_Closure C17_NoFile C17_NoFifoLeft C17_Rendezvous C18_Whole
 PROPERTY C05_Live
